@@ -26,7 +26,8 @@ RULE = (
     'util.GetAttachedFactors): every N_FACTORS value is a positive divisor of n, every N-1_FACTORS value '
     'divides n-1, a key with a record is weak and the recording check has a positive entry, and some '
     'N_FACTORS value is a proper divisor unless n divides another distinct modulus of the batch. The '
-    'factoring helpers are checked the same way on arbitrary n and guesses. Non-trivial: a factor record '
+    'factoring helpers are checked the same way on arbitrary n and guesses; an exhaustive grid passes every '
+    'degenerate class at several sizes to every factoring check under several constructor parameters. Non-trivial: a factor record '
     '(or a non-empty helper result) was produced; distinct by descriptor hash.')
 ASSUMPTIONS = [
     'Python/gmpy2 integer division is correct (the oracle is one division per recorded value)',
@@ -410,7 +411,20 @@ def strat_helpers(tier):
                                 'param': st.integers(0, 10**6), 'aim': st.booleans()})
 
 
+def enum_degenerate(tier):
+  """Every degenerate class x every factoring check x sizes x constructor parameters, one key per batch."""
+  sizes = [64, 65, 128, 1024] if tier == 'quick' else [64, 65, 66, 96, 128, 200, 256, 512, 1024, 2048]
+  params = [0, 1, 4] if tier == 'quick' else [0, 1, 2, 3, 4, 5]
+  for k in range(len(fam.DEGENERATE_KINDS)):
+    for check in FACTORING:
+      for bits in sizes:
+        for param in params:
+          yield {'m': bits * 7 + param, 'keys': [{'f': 'degenerate', 'bits': bits, 'k': k}], 'check': check,
+                 'param': param, 'aim': False, 'pre_run': False, 'perm': None}
+
+
 ARMS = [
+    Arm('degenerate_grid', run_batch, enumerate=enum_degenerate, exhaustive=True),
     Arm('batch_checks', run_batch, strategy=strat_batch, quick=2400, thorough=30000,
         budget=(170, 1700)),
     Arm('helpers', run_helpers, strategy=strat_helpers, quick=3200, thorough=40000,
